@@ -64,8 +64,8 @@ def run_check(tier, seed, replay=None):
             rd = ev.get("round")
             how = "on the main thread after other calls" if ev.get("e") == "Seq" else \
                   {-2: "in a history thread after other calls", -3: "on the same bytes at another address modulo 8",
-                   -4: "beside threads whose calls are all rejected"}.get(rd, "beside other calls")
-            kind = "history" if rd == -2 or ev.get("e") == "Seq" else "alignment" if rd == -3 else "concurrent"
+                   -4: "beside threads whose calls are all rejected", -5: "on a thread pinned to one processor"}.get(rd, "beside other calls")
+            kind = "history" if rd == -2 or ev.get("e") == "Seq" else "alignment" if rd == -3 else "environment" if rd == -5 else "concurrent"
             c.violation("conc:%s:%s" % (ev.get("fn"), kind),
                         "a call %s returned a result different from the same call on a thread of its own: %s" % (how, json.dumps(ev)),
                         {"kind": "conc", "seed": seed, "event": ev})
@@ -80,7 +80,9 @@ def run_check(tier, seed, replay=None):
                          "a reference per (function, input) computed on a thread of its own; the same calls one after the "
                          "other on the main thread; three long-lived threads running every call twice in orders of their "
                          "own (inputs include a file over 4 MiB and streams of one text under four window sizes); the same bytes at "
-                         "every address modulo 8; files expanded beside threads that do nothing but get garbage rejected; then 16 "
+                         "every address modulo 8; a 4 MiB file with streams at every equal-parts cut, with all processors and pinned to "
+                         "one; the C wrappers on a per-thread input buffer, refused calls followed by a twin of the same "
+                         "length; files expanded beside threads that do nothing but get garbage rejected; then 16 "
                          "threads released together by a barrier (same call; same function on distinct inputs; random "
                          "mixes); every result compared with the reference by Trace_Conc; a second process must "
                          "reproduce the reference hashes; non-trivial = distinct (function, input)")
